@@ -80,9 +80,12 @@ def one(ctx, drv, order, specs, doc):
     except Exception as e:
         ctx.fail('C17 oracle: normalization raised %r' % (e,), jcase)
         return
-    # oracle
+    # oracle (a setter that fails for good when its input is not there *yet* makes the result depend on the order: the
+    # least fixpoint does not describe it; the port does)
     val, unresolved = lfp(order, specs, doc)
-    if other:
+    if any(s['kind'] == 'index' for s in specs.values()):
+        ctx.dist('oracle', 'port only (IndexError setter)')
+    elif other:
         ctx.fail('C17 oracle: unexpected errors %r' % ([hex(e.code) for e in other],), jcase)
     elif set(failed) != unresolved or len(failed) != len(unresolved):
         ctx.fail('C17 oracle: fields with "default cannot be set" %r differ from the fields without obtainable inputs %r'
@@ -132,8 +135,10 @@ def random_case(rng, nmax=6):
             specs[f] = {'kind': 'sum', 'deps': rng.sample(fields, rng.randint(0, min(3, n)))}
         elif x < 0.72:
             specs[f] = {'kind': 'raise'}
-        elif x < 0.86:
+        elif x < 0.82:
             specs[f] = {'kind': 'indirect', 'dep': rng.choice(fields)}
+        elif x < 0.86:
+            specs[f] = {'kind': 'index', 'dep': rng.choice(fields)}
         elif x < 0.93:
             specs[f] = {'kind': 'const', 'v': rng.choice([0, 5, None, None])}
         else:
@@ -171,6 +176,20 @@ def run(ctx, n):
                                         'c': {'kind': 'const', 'v': 1}}, {})
         one(ctx, drv, ['a', 'b', 'c'], {'a': {'kind': 'indirect', 'dep': 'b'}, 'b': {'kind': 'const', 'v': None},
                                         'c': {'kind': 'sum', 'deps': ['b']}}, {})
+        # a setter that raises an exception other than KeyError (here IndexError, when its input is not there yet) is an
+        # error of its own field at once — it is not tried again after the input has arrived
+        for order, specs in ((['a', 'b'], {'a': {'kind': 'index', 'dep': 'b'}, 'b': {'kind': 'const', 'v': 1}}),
+                             (['a', 'c', 'b'], {'a': {'kind': 'index', 'dep': 'b'}, 'b': {'kind': 'const', 'v': 1},
+                                                'c': {'kind': 'sum', 'deps': ['b']}})):
+            one(ctx, drv, order, specs, {})
+            try:
+                res, failed, other = run_real(order, specs, {})
+                if failed != ['a'] or 'a' in res:
+                    ctx.fail('C17 oracle: the setter of \'a\' raises IndexError when it is called (its input \'b\' is set later): '
+                             'expected an error for \'a\' only and no value; got %r, errors for %r' % (res, failed),
+                             {'order': order, 'specs': [[k, specs[k]] for k in order], 'doc': {}})
+            except Exception as e:
+                ctx.fail('C17 oracle: normalization raised %r' % (e,), {'order': order, 'specs': [[k, specs[k]] for k in order]})
         if ctx.tier == 'thorough':
             for nf in (1, 2, 3):
                 for fields, specs, doc in exhaustive(nf):
